@@ -247,7 +247,7 @@ func runC09(t *testing.T, tape *sim.Tape, tier string) *Outcome {
 					t := t
 					acts = append(acts, sim.Action{Key: "run", Do: func() { cl.S.Release(t) }})
 				}
-				if c.P != nil && taskObjPipe(t) == c.P.ID {
+				if c.P != nil && (t.Name == fmt.Sprintf("c%d", c.P.ID) || taskObjPipe(t) == c.P.ID) {
 					t := t
 					acts = append(acts, sim.Action{Key: "run", Do: func() { cl.S.Release(t) }})
 				}
